@@ -362,6 +362,23 @@ def reentrant_in_finished(case, dr):
     return False
 
 
+def reentrant_with_extra_listeners(case, dr):
+    """history shape of finding D25: a completion is reported from inside a notification while
+    more than one function is registered for that kind (or an observer is attached): the later
+    functions / observers are told about the re-used API object after the nested call"""
+    multi = False
+    for op in dr.get("script") or []:
+        if op[0] == "register" and op[2] != 0:
+            multi = True
+        if op[0] == "attach":
+            multi = True
+    if not multi:
+        return False
+    if any(case["imm"][:40]):
+        return True
+    return any(e[0] == "fire_in" for r in dr.get("trace") or [] for e in r["log"])
+
+
 def run_kind_slice(pid, cfg, tier, seed, workdir, rep, stats, findings):
     import shapes
     # a program / history shape of ANY known finding excuses a deviation from the reference
@@ -376,6 +393,8 @@ def run_kind_slice(pid, cfg, tier, seed, workdir, rep, stats, findings):
                 return known_shapes[sh]
         if "reentrant_in_finished" in known_shapes and reentrant_in_finished(case, dr):
             return known_shapes["reentrant_in_finished"]
+        if "reentrant_with_extra_listeners" in known_shapes and reentrant_with_extra_listeners(case, dr):
+            return known_shapes["reentrant_with_extra_listeners"]
         return None
 
     samples = run_slice(pid, cfg, cfg[tier], seed, workdir, rep, stats)
